@@ -248,7 +248,10 @@ class Result:
     return (self.pid, key) in self._known
 
   def violation(self, key, what, data=None, found_input=True):
-    self.violations.append({"key": key, "what": what, "data": data, "found_input": found_input})
+    v = {"key": key, "what": what, "data": data, "found_input": found_input}
+    self.violations.append(v)
+    # reported at once (not only in finish): a later crash of the native code under test must not lose it
+    emit_violation(self, v)
 
 
 def load_known():
@@ -258,6 +261,31 @@ def load_known():
       return json.load(fh)
   except FileNotFoundError:
     return {"findings": [], "fixed": []}
+
+
+def emit_violation(res, v):
+  """Print one violation (once per key): KNOWN-FINDING line, or replay file + VIOLATION line."""
+  if not hasattr(res, "_emitted"):
+    res._emitted = {}
+  if v["key"] in res._emitted:
+    return None if res._emitted[v["key"]] is not v else res._emitted_kind[v["key"]]
+  ensure_dirs()
+  res._emitted[v["key"]] = v
+  if not hasattr(res, "_emitted_kind"):
+    res._emitted_kind = {}
+  if res.known(v["key"]):
+    print(f"KNOWN-FINDING: property={res.pid} {v['key']}: {v['what']}", flush=True)
+    res._emitted_kind[v["key"]] = "known"
+    return "known"
+  h = hashlib.sha1((v["key"] + json.dumps(v["data"], sort_keys=True, default=str)).encode()).hexdigest()[:10]
+  path = os.path.join(REPLAYS, f"{res.pid}_{h}.json")
+  with open(path, "w") as fh:
+    json.dump({"property": res.pid, "key": v["key"], "what": v["what"], "found_input": v["found_input"], "replay": v["data"]}, fh, indent=1, default=str)
+  tail = "" if v["found_input"] else " no-failing-input-found"
+  print(f"VIOLATION property={res.pid} replay={path}{tail}", flush=True)
+  log(f"  -> {v['key']}: {v['what']}")
+  res._emitted_kind[v["key"]] = "violation"
+  return "violation"
 
 
 def finish(res: Result):
@@ -275,22 +303,10 @@ def finish(res: Result):
   if failed and not any((res.pid, v["key"]) not in known_keys for v in res.violations):
     res.violations.append({"key": "obligation-failed:" + failed[0][:80], "what": f"{len(failed)} obligation(s) no longer check ({'; '.join(f[:100] for f in failed[:4])}); no failing input found", "data": {"failed_obligations": [(n, d) for n, ok, d in res.obligations if not ok][:10]}, "found_input": False})
   for v in res.violations:
-    kk = (res.pid, v["key"])
-    if kk in seen:
-      continue
-    seen.add(kk)
-    if kk in known_keys:
-      print(f"KNOWN-FINDING: property={res.pid} {v['key']}: {v['what']}", flush=True)
-      continue
-    nviol += 1
-    h = hashlib.sha1((v["key"] + json.dumps(v["data"], sort_keys=True, default=str)).encode()).hexdigest()[:10]
-    path = os.path.join(REPLAYS, f"{res.pid}_{h}.json")
-    with open(path, "w") as fh:
-      json.dump({"property": res.pid, "key": v["key"], "what": v["what"], "found_input": v["found_input"], "replay": v["data"]}, fh, indent=1, default=str)
-    tail = "" if v["found_input"] else " no-failing-input-found"
-    print(f"VIOLATION property={res.pid} replay={path}{tail}", flush=True)
-    log(f"  -> {v['key']}: {v['what']}")
-    code = 1
+    r = emit_violation(res, v)
+    if r == "violation":
+      nviol += 1
+      code = 1
   nob = len(res.obligations)
   ndis = sum(1 for _, ok, _ in res.obligations if ok)
   ev = {
